@@ -1,5 +1,5 @@
 # replay of a bounded stand-in violation: re-run native/c01_backends.py
 import sys
-print('Catstate(0.6, -0.7, p=0.3); Rgate; BSgate on bosonic/complex: quadrature moments / photon numbers [0.1094, 0.2619, 0.2588, -0.0, 0.1698, 0.2367, 0.1169, 0.0829] differ from the fock simulator [-0.1094, -0.2619, -0.2588, 0.0, -0.1698, -0.2367, 0.1169, 0.0829]')
+print('Catstate(0.8, 0.4, p=0.0); Rgate; BSgate on bosonic/real: quadrature moments / photon numbers [0.0, 0.0, 0.0, 0.0, -0.0, -0.0, 0.2115, 0.15] differ from the fock simulator [0.0, 0.0, 0.0, 0.0, 0.0, 0.0, 0.2115, 0.15]')
 print('REPLAY-VIOLATION')
 sys.exit(1)
